@@ -392,3 +392,13 @@ def check(ctx):
     entries = [b for b in F.bodies if b.dk == 'AssocFn' and b.impl_self and ty_matches(b.impl_self, 'Envelope') and not b.impl_trait
                and any(m in b.path for m in ('::base::queries::', '::base::walk::', '::base::digest::')) and F.item_is_exported(b)]
     panic.slice_check(ctx, 'C15.7', entries, 'query')
+
+
+_check_before_errflow = check
+
+
+def check(ctx):
+    _check_before_errflow(ctx)
+    # C15.8 error discipline: no error of a fallible call is turned into "absent / false / default" outside the reviewed table
+    from .. import errflow
+    errflow.check(ctx, 'C15.8', ['src/base/queries.rs', 'src/base/walk.rs', 'src/base/envelope.rs', 'src/base/leaf.rs'], 'query / traversal family')
